@@ -107,6 +107,20 @@ type emitter struct {
 	c    int64
 	ids  map[string]int
 	next int
+	buf  []vt.Event // the events of the case, written contiguously by flush (scenarios run in parallel)
+}
+
+var flushMu sync.Mutex
+
+func (e *emitter) put(ev vt.Event) { e.buf = append(e.buf, ev) }
+
+func (e *emitter) flush() {
+	flushMu.Lock()
+	defer flushMu.Unlock()
+	for _, ev := range e.buf {
+		e.tr.Emit(ev)
+	}
+	e.buf = nil
 }
 
 func (e *emitter) id(u string) int {
@@ -178,7 +192,7 @@ func (e *emitter) emit(r rawEvent) {
 	case "Tick":
 		ev["hours"] = r.Hours
 	}
-	e.tr.Emit(ev)
+	e.put(ev)
 }
 
 // runner executes compactor runs over one bucket and produces raw events.
@@ -349,12 +363,15 @@ type env struct {
 	t       *testing.T
 	tr      *vt.Tracer
 	scratch string
+	mu      sync.Mutex // protects worlds, refs, caseID
 	worlds  map[string]*world
 	refs    map[string]map[string][]string // layout/conc -> run phase -> mutation kinds in order (crash-free reference)
 	caseID  int64
 }
 
 func (e *env) world(name string) *world {
+	e.mu.Lock()
+	defer e.mu.Unlock()
 	if w, ok := e.worlds[name]; ok {
 		return w
 	}
@@ -385,8 +402,11 @@ func (e *env) world(name string) *world {
 // reference: mutation kinds of the crash-free compaction run ("compact") and of the cleaning run 49 h later ("clean").
 func (e *env) reference(layout string, conc int) map[string][]string {
 	key := fmt.Sprintf("%s/%d", layout, conc)
-	if r, ok := e.refs[key]; ok {
-		return r
+	e.mu.Lock()
+	r0, ok := e.refs[key]
+	e.mu.Unlock()
+	if ok {
+		return r0
 	}
 	w := e.world(layout)
 	inner := objstore.NewInMemBucket()
@@ -413,7 +433,9 @@ func (e *env) reference(layout string, conc int) map[string][]string {
 		e.t.Fatalf("reference run C of %s failed: %v", layout, err)
 	}
 	ref["clean"] = kinds()
+	e.mu.Lock()
 	e.refs[key] = ref
+	e.mu.Unlock()
 	return ref
 }
 
@@ -472,8 +494,12 @@ func (e *env) runScenario(in vt.Case) {
 	if sc.Phase != "none" && k == 0 {
 		return // the reference run has no such mutation (nothing to crash before)
 	}
+	e.mu.Lock()
 	e.caseID++
-	em := &emitter{tr: e.tr, c: e.caseID, ids: map[string]int{}}
+	cid := e.caseID
+	e.mu.Unlock()
+	em := &emitter{tr: e.tr, c: cid, ids: map[string]int{}}
+	defer em.flush()
 	for _, id := range w.ids {
 		em.id(id.String())
 	}
@@ -482,7 +508,7 @@ func (e *env) runScenario(in vt.Case) {
 		orig = append(orig, map[string]any{"id": i + 1, "grp": w.origGrp[i], "toks": w.origTok[i]})
 	}
 	in["kresolved"] = k
-	e.tr.Emit(vt.Event{"ev": "case", "case": e.caseID, "in": in, "kf": "", "orig": orig, "ntok": len(w.tokens),
+	em.put(vt.Event{"ev": "case", "case": cid, "in": in, "kf": "", "orig": orig, "ntok": len(w.tokens),
 		"ignoreDelay": int(sgDelay / time.Second), "blocks": []any{}})
 
 	dataDir, _ := os.MkdirTemp(e.scratch, "c29data-")
@@ -519,7 +545,7 @@ func (e *env) runScenario(in vt.Case) {
 			r.quiet(name, err, crashed)
 			return
 		}
-		outFile := filepath.Join(e.scratch, fmt.Sprintf("c29child-%d-%s.ndjson", e.caseID, name))
+		outFile := filepath.Join(e.scratch, fmt.Sprintf("c29child-%d-%s.ndjson", cid, name))
 		defer os.Remove(outFile)
 		var read []string
 		for u := range r.read {
@@ -600,7 +626,7 @@ func (e *env) runScenario(in vt.Case) {
 		sgIDs = append(sgIDs, em.id(u))
 	}
 	sort.Ints(sgIDs)
-	e.tr.Emit(vt.Event{"ev": "End", "case": e.caseID, "sg": sgIDs, "blocks": em.blocks(r.obs.snapshot(inner, time.Now()))})
+	em.put(vt.Event{"ev": "End", "case": cid, "sg": sgIDs, "blocks": em.blocks(r.obs.snapshot(inner, time.Now()))})
 }
 
 func TestC29(t *testing.T) {
@@ -616,6 +642,8 @@ func TestC29(t *testing.T) {
 		return
 	}
 	rnd := vt.Rand()
+	var cases []vt.Case
+	add := func(c vt.Case) { cases = append(cases, c) }
 	// (1) the crash scenarios of the model (CompactionMC: layout x crash point x downtime), as outages
 	tlc := vt.TLCCases(t)
 	for _, c := range tlc {
@@ -624,9 +652,9 @@ func TestC29(t *testing.T) {
 		if !vt.Thorough() && vt.Str(c["layout"]) != "aligned5" && vt.Str(c["phase"]) != "none" && vt.Int(c["downtime"]) != 5 {
 			continue
 		}
-		e.runScenario(c)
+		add(c)
 	}
-	// (2) process death on a filesystem bucket: a sample of the model's scenarios (all of them in thorough)
+	// (2) process death on a filesystem bucket: a sample of the model's scenarios (thorough: all with downtime 0 or 49 h)
 	for i, c := range tlc {
 		if vt.Str(c["phase"]) == "none" {
 			continue
@@ -634,7 +662,7 @@ func TestC29(t *testing.T) {
 		if !vt.Thorough() && rnd.Intn(len(tlc)) >= 4 && i != 1 {
 			continue
 		}
-		if vt.Thorough() && vt.Int(c["downtime"]) == 3 && rnd.Intn(2) == 0 {
+		if vt.Thorough() && vt.Int(c["downtime"]) == 3 {
 			continue
 		}
 		d := vt.Case{}
@@ -642,7 +670,7 @@ func TestC29(t *testing.T) {
 			d[k] = v
 		}
 		d["mode"] = "exit"
-		e.runScenario(d)
+		add(d)
 	}
 	// (3) every mutation index as a crash point (thorough: all; quick: a seeded sample), all layouts of the
 	// tier including the two-group layout compacted by two workers
@@ -658,15 +686,46 @@ func TestC29(t *testing.T) {
 		ref := e.reference(name, conc)
 		for _, phase := range []string{"compact", "clean"} {
 			n := len(ref[phase])
+			dts := []int{0, 3, 5}
+			if phase == "clean" {
+				dts = []int{0, 5}
+			}
 			for k := 1; k <= n; k++ {
-				for _, dt := range []int{0, 3, 5} {
+				for _, dt := range dts {
 					if !vt.Thorough() && rnd.Intn(n*3) >= 4 {
 						continue
 					}
-					e.runScenario(vt.Case{"layout": name, "conc": conc, "phase": phase, "kind": "", "ord": "", "k": k, "downtime": dt, "mode": "outage"})
+					add(vt.Case{"layout": name, "conc": conc, "phase": phase, "kind": "", "ord": "", "k": k, "downtime": dt, "mode": "outage"})
 				}
 			}
 		}
-		e.runScenario(vt.Case{"layout": name, "conc": conc, "phase": "none", "kind": "none", "ord": "first", "k": 0, "downtime": 0, "mode": "outage"})
+		add(vt.Case{"layout": name, "conc": conc, "phase": "none", "kind": "none", "ord": "first", "k": 0, "downtime": 0, "mode": "outage"})
 	}
+	// worlds and crash-free references are built up front; the scenarios are independent (own bucket, own
+	// data dir) and run on a few workers; each case's events are written contiguously
+	for _, c := range cases {
+		n := vt.Normalize(c)
+		conc := 1
+		if v, ok := n["conc"]; ok {
+			conc = vt.Int(v)
+		}
+		e.reference(vt.Str(n["layout"]), conc)
+	}
+	workers := vt.Pick(3, 6)
+	ch := make(chan vt.Case)
+	var wg sync.WaitGroup
+	for i := 0; i < workers; i++ {
+		wg.Add(1)
+		go func() {
+			defer wg.Done()
+			for c := range ch {
+				e.runScenario(c)
+			}
+		}()
+	}
+	for _, c := range cases {
+		ch <- c
+	}
+	close(ch)
+	wg.Wait()
 }
